@@ -36,7 +36,8 @@ Stages
      with the extracted STATE-PASSING model object (second model driver: coq/Extract_reuse.v + ocaml/reuse/ops_reuse.ml,
      op msm): ReuseProofs2.cg_sp .. ReuseProofs3.fgmres_sp with the preconditioner = Amg.apply on the scratch list,
      amg scratch and solver workspace (junk-filled at construction) threaded through the whole script; transfer
-     operators taken from the implementation's dump (C04).
+     operators taken from the implementation's dump (C04).  Likewise make_solver<as_preconditioner<chebyshev>, S>
+     (op rpm: Chebyshev object state (p, r) junk-filled and threaded by the extracted ReuseProofs4.cheby_sp).
 """
 import random
 from fractions import Fraction as F
